@@ -14,6 +14,7 @@ EXPLANATION = (
     "lesser side of a strict comparison. R3 sources: epoch = self.height.epoch(), votes are read from self's stake set for the proof's keys; "
     "the returned state is self with the given proof."
     " R1 also requires that no proof entry can reach the next iteration without passing the verification (`verify/every-entry`). R2 accepts a fold with an addition step for `.sum()`, and - when the vote sums saturate - requires that a saturated total (u128::MAX) confirms nothing (`threshold/saturated-guard`, `threshold/saturated-total`)."
+    " R2 `threshold/not-strict`: `>=` confirms on exactly two thirds — reported (no rounding involved). Shared: C01.R10 (the tally does not wrap)."
 )
 NOT_DECIDED = ["Ed25519 signature verification itself (tmelcrypt, trusted base)",
                "that votes()/total_votes() sums do not overflow (supply bound, C09)"]
